@@ -130,10 +130,9 @@ law("Ed25519", "ILAW-enc-inj", dict(g=EG, a="spec:ept", b="spec:ept"), '''
 def f(g, a, b):
     spec.ed_disable_auto_injectivity()
     assume(spec.enc(g, a) == spec.enc(g, b))
-    lemma("ed_same_y", a, b)
-    spec.ed_coords_determine_point(a, b)
     assert spec.ed_y(a) == spec.ed_y(b), "same-y"
     assert spec.ed_x(a) % 2 == spec.ed_x(b) % 2, "same-parity"
+    lemma("ed_enc_injective", a, b)      # equal y and equal parity of x determine the point (Lean: bridge_ed_enc_injective)
     assert a == b, "enc-injective"
 ''')
 law("Ed25519", "ILAW-dec-strict", dict(g=EG, bs="bytes"), '''
